@@ -347,10 +347,15 @@ def run_check(spec, tier, seed):
     results = []
     cmds = []
     machinery = []
-    for group, ghs in by_group.items():
+    batches = []
+    for group, ghs_all in by_group.items():
+        # the harness names go on the command line: keep each invocation below the OS argument limit
+        for i in range(0, len(ghs_all), 250):
+            batches.append((group, ghs_all[i:i + 250]))
+    for bi, (group, ghs) in enumerate(batches):
         jobs = min(caps.get("jobs", 16), max(1, len(ghs)))
         data, lpath, wall, rc, cmdtxt = run_kani_group(group, [h.name for h in ghs], jobs, ht, ot, mem,
-                                                        "%s-%s" % (pid, tier), tier)
+                                                        "%s-%s-%d" % (pid, tier, bi), tier)
         cmds.append(cmdtxt)
         if data is None:
             tail = "".join(open(lpath).readlines()[-40:])
